@@ -157,6 +157,13 @@ def run_case(case):
                 outs += [ca.MX(tt), ca.MX(vv)]
         outs.append(ca.MX(b.ocp.gist))
         F = ca.Function("s", [obs.view.x, obs.view.p], outs)
+        # per-interval quantities (piecewise constant, the extra column of include_last symbols at tf): nesting only
+        pw = [s_ for s_ in spec.get("params", []) + spec.get("variables", []) if s_.get("grid") == "control"]
+        outs_pw = []
+        for s_ in pw:
+            for g, kw in (("control", {}), ("integrator", {}), ("integrator", {"refine": r})):
+                outs_pw.append(ca.MX(C.call("sample:%s%s" % (g, kw), st.sample, b.syms[s_["name"]], grid=g, **kw)[1]))
+        F_pw = ca.Function("spw", [obs.view.x, obs.view.p], outs_pw) if outs_pw else None
         samp = C.call("sampler", st.sampler, [sym for _, sym, _ in targets])
     except C.RockitRaised as e:
         res["violations"].append(C.exc_violation(ID, e, "|".join(sig.split("|")[:2])))
@@ -176,6 +183,27 @@ def run_case(case):
         res["status"] = "discarded"
         res["note"] = "trajectory blows up at this point (badly conditioned): no meaningful comparison"
         return res
+    if F_pw is not None:
+        from .c07 import blocks
+        vpw = F_pw(w, obs.view.p0)
+        vpw = [vpw] if not isinstance(vpw, (list, tuple)) else vpw
+        for j, s_ in enumerate(pw):
+            ncol = s_["shape"][1]
+            v_c, v_i, v_r = [blocks(vpw[3 * j + q], ncol) for q in range(3)]
+            res["evals"] += 1
+            res["counters"]["nesting_points"] += v_i.shape[0]
+            ok = v_c.shape[0] == N + 1 and v_i.shape[0] == N * M + 1 and v_r.shape[0] == N * M * r + 1
+            if ok:
+                d1 = float(np.max(np.abs(v_r[::r] - v_i)))
+                d2 = float(np.max(np.abs(v_i[::M] - v_c)))
+            if not ok or max(d1, d2) > 1e-9 * (1 + float(np.max(np.abs(v_c)))):
+                res["violations"].append({
+                    "kind": "nesting", "mech": "C08|grids-do-not-nest|per-interval",
+                    "detail": "%s (include_last=%s): blocks control/integrator/refine%d = %d/%d/%d; refine vs integrator "
+                              "%.3g, integrator vs control %.3g" % (s_["name"], bool(s_.get("include_last")), r, v_c.shape[0],
+                                                                    v_i.shape[0], v_r.shape[0], d1 if ok else -1,
+                                                                    d2 if ok else -1)})
+                return res
     ph = obs.rb(w)
     ref = model.RefModel(spec, ph)
     tc = ph["tc"]
